@@ -63,7 +63,7 @@ Record observed := mkObs {
   o_rcache : list (Z * list (Z * Z))
 }.
 
-Inductive outcome := OErr (e : Z) (* 1 = KeyError, 2 = RecursionError *) | OOk (o : observed).
+Inductive outcome := OErr (e : Z) (* 1 = KeyError, 2 = RecursionError, 3 = TypeError *) | OOk (o : observed).
 
 Record tcase := mkCase {
   k_cells : list (Z * xcell);
@@ -71,6 +71,7 @@ Record tcase := mkCase {
   k_nck : Z; k_nsk : Z;
   k_trcl : bool;                              (* run the TRCL loop first *)
   k_ifd : bool; k_ifg : bool;                 (* inline_filled, inline_filling *)
+  k_inl : option (Z * Z);                     (* then inline_cells with max_inline_score = num/den *)
   k_out : outcome
 }.
 
@@ -87,7 +88,17 @@ Definition run_case (c : tcase) : res (list (Z * list Z) * list (list Z) * xstat
   | Ok s0 =>
       match x_fill_phase fuel0 fuel0 (k_ifd c) (k_ifg c) s0 with
       | Err x => Err x
-      | Ok (rs, s1) => Ok (by_universe (s_cells s0), rs, s1)
+      | Ok (rs, s1) =>
+          match k_inl c with
+          | None => Ok (by_universe (s_cells s0), rs, s1)
+          | Some (num, den) =>
+              match inline_cells Z fuel0 num den (s_cells s1) with
+              | Err x => Err x
+              | Ok cells' =>
+                  Ok (by_universe (s_cells s0), rs,
+                      mkSt cells' (s_surfs s1) (s_nck s1) (s_nsk s1) (s_cache s1) (s_rcache s1))
+              end
+          end
       end
   end.
 
@@ -125,6 +136,7 @@ Definition check_case (c : tcase) : bool :=
   match run_case c, k_out c with
   | Err EKey, OErr 1 => true
   | Err EFuel, OErr 2 => true
+  | Err EType, OErr 3 => true
   | Ok (du, rs, s), OOk o => check_obs du rs s (List.length (k_surfs c)) o
   | _, _ => false
   end.
@@ -134,6 +146,7 @@ Definition diagnose (c : tcase) : Z :=
   match run_case c, k_out c with
   | Err EKey, OErr 1 => 0
   | Err EFuel, OErr 2 => 0
+  | Err EType, OErr 3 => 0
   | Ok (du, rs, s), OOk o =>
       if negb (list_eqb (pair_eqb Z.eqb (list_eqb Z.eqb)) du (o_du o)) then 1
       else if negb (list_eqb (list_eqb Z.eqb) rs (o_results o)) then 2
